@@ -114,6 +114,30 @@ def run(pid, cfg, tier, seed, workdir, already_broken):
                                       "cls": None,
                                       "replay": {"program": "cd /verif/harness && cargo build --offline -p late && target/debug/late %s" % " ".join(args),
                                                  "schedule": [], "policy": "os-threads", "impl_trace": txt.splitlines()[-40:], "model_trace": []}})
+    # containers of DIFFERENT pointee types sharing the debt slots (objects of the model are untyped): a
+    # deterministic reproduction on the real crate of a debt paid by a writer of another type after address reuse
+    if cfg.get("typed"):
+        tdir = os.path.join(ROOT, "harness/typed")
+        env = dict(os.environ, CARGO_NET_OFFLINE="true", D3_RECYCLE="1")
+        try:
+            b = subprocess.run(["cargo", "build", "--offline"], cwd=tdir, stdout=subprocess.PIPE, stderr=subprocess.STDOUT, timeout=1200, env=env)
+            outs = {}
+            for mode in ([], ["control"]):
+                p = subprocess.run([os.path.join(tdir, "target/debug/d3-repro")] + mode, cwd=tdir, stdout=subprocess.PIPE, stderr=subprocess.STDOUT, timeout=120, env=env)
+                outs[" ".join(mode) or "typed"] = (p.returncode, p.stdout.decode(errors="replace"))
+        except (subprocess.TimeoutExpired, OSError) as ex:
+            outs = {"typed": (-9, repr(ex)), "control": (-9, "")}
+        rc_t, txt_t = outs.get("typed", (-9, ""))
+        rc_c, txt_c = outs.get("control", (-9, ""))
+        def _rp(txt, mode):
+            return {"program": "cd /verif/harness/typed && cargo build --offline && D3_RECYCLE=1 target/debug/d3-repro %s   (README.md there describes the interleaving)" % mode,
+                    "schedule": [], "policy": "forced by the hooks of src/verif.rs", "impl_trace": txt.splitlines()[-40:], "model_trace": []}
+        if "D3-REPRODUCED" in txt_t:
+            late_findings.append({"message": "two containers of different pointee types: a reader releases, as its own type T, the reference a writer of the other container put on a U object at a reused address (HybridProtection::attempt, `T::dec(ptr)` after a failed pay): T's destructor runs on a U", "cls": "D3-cross-type-payment", "replay": _rp(txt_t, "")})
+        elif "D3-NOT-OBSERVED" not in txt_t and "D3-INCONCLUSIVE" not in txt_t:
+            late_findings.append({"message": "the two-type scenario of harness/typed failed in an unexpected way (exit %s): %s" % (rc_t, txt_t.strip()[-300:]), "cls": None, "replay": _rp(txt_t, "")})
+        if "D3-NOT-OBSERVED" not in txt_c:
+            late_findings.append({"message": "the same-type control of harness/typed (same interleaving, both containers of type T) does not behave correctly (exit %s): %s" % (rc_c, txt_c.strip()[-300:]), "cls": None, "replay": _rp(txt_c, "control")})
     # weak-memory executions: Miri litmus programs on the crate as users get it (no hooks); only when the
     # ordering obligations no longer check (search for a failing input) or in the thorough tier
     if cfg.get("litmus") and (already_broken or tier == "thorough"):
